@@ -307,6 +307,7 @@ def step (st : DState) (line : String) : DState × String :=
   match toks with
   | [] => (st, "")
   | ["reset"] => ({}, "ok")
+  | "ghold" :: _ => (st, "ok")     -- a traversal GENERATOR is requested now and consumed by a later `… gen` line: nothing is read yet
   | ["reload"] =>
     -- the caller saves the graph and goes on with the LOADED copy (pickle / deepcopy / nrpickler): the isomorphic copy
     -- of EG.Copy; the harness names the copies as it named the originals, i.e. the identity renaming
